@@ -4,6 +4,7 @@ import (
 	"fmt"
 	"go/token"
 	"go/types"
+	"math/big"
 
 	"gosmt/smt"
 )
@@ -198,4 +199,44 @@ func (ex *Exec) errorsAs(fr *frame, pos token.Pos, err iface, want types.Type, c
 		}
 	}
 	return false
+}
+
+func init() {
+	// decimal.Decimal.NumDigits: the number of decimal digits of the coefficient (1 for zero), as a chain of
+	// comparisons with powers of ten up to the coefficient's known bound (60 digits where none is known: a larger
+	// coefficient on such a path is reported as unsupported, not guessed).
+	reg("(github.com/shopspring/decimal.Decimal).NumDigits", func(ex *Exec, fr *frame, pos token.Pos, args []value) value {
+		st, ok := args[0].(structure)
+		if !ok || len(st) < 2 {
+			panic(ex.unsupported(fmt.Sprintf("decimal.NumDigits receiver is %T", args[0])))
+		}
+		if p, isPtr := st[0].(*value); isPtr && p == nil {
+			return ex.b.I64(1)
+		}
+		t := ex.bigOf(st[0], fr, pos)
+		if c, ok := t.ConstInt(); ok {
+			n := len(new(big.Int).Abs(c).String())
+			return ex.b.I64(int64(n))
+		}
+		b := ex.b
+		abs := b.Ite(b.Lt(t, b.I64(0)), b.Neg(t), t)
+		maxDigits := 60
+		if t.Lo != nil && t.Hi != nil {
+			m := new(big.Int).Abs(t.Lo)
+			if h := new(big.Int).Abs(t.Hi); h.Cmp(m) > 0 {
+				m = h
+			}
+			maxDigits = len(m.String())
+		} else {
+			lim := b.Int(new(big.Int).Exp(big.NewInt(10), big.NewInt(60), nil))
+			if ex.branch("numdigits-beyond-60", b.Ge(abs, lim)) {
+				panic(ex.unsupported("decimal.NumDigits of an unbounded coefficient beyond 60 digits"))
+			}
+		}
+		r := b.I64(int64(maxDigits))
+		for k := maxDigits - 1; k >= 1; k-- {
+			r = b.Ite(b.Lt(abs, b.Int(new(big.Int).Exp(big.NewInt(10), big.NewInt(int64(k)), nil))), b.I64(int64(k)), r)
+		}
+		return r
+	})
 }
